@@ -64,13 +64,13 @@ Proof.
   cbn [bi_sl bi_sc bi_el bi_val]. repeat split; intros; lia.
 Qed.
 
-(* the number of lines the block phase counts: LF bytes of the front matter + lines of the rest *)
+(* the number of lines the block phase counts: line endings of the front matter + lines of the rest *)
 Definition block_lines (o : bopts) (x : bytes) : nat :=
   match bo_front_matter_delimiter o with
   | None => List.length (lines x)
   | Some d =>
     match split_off_front_matter x d with
-    | Ok (Some (fm, rest)) => count_lf fm + List.length (lines rest)
+    | Ok (Some (fm, rest)) => count_line_endings fm + List.length (lines rest)
     | _ => List.length (lines x)
     end
   end.
@@ -88,7 +88,7 @@ Proof.
   cbn in H. inversion H; subst. clear H. cbn. split; [|lia].
   split; [reflexivity|]. cbn.
   unfold Pn, Pn4, max1, free_val, tbl. cbn. rewrite ?andb_false_r.
-  repeat split; intros; try discriminate; destruct (count_lf fm); lia.
+  repeat split; intros; try discriminate; destruct (count_line_endings fm); lia.
 Qed.
 
 (* ================================================================== parse_blocks *)
